@@ -261,6 +261,8 @@ def infer(ip, inv, ctor_runs, method_runs, log=None):
     for rnd in range(MAX_ROUNDS):
         changed = False
         widen = rnd >= WIDEN_AFTER
+        if getattr(inv, "round_hook", None):
+            inv.round_hook()
         for key, st, obj in inv.instances():
             for m in method_runs:
                 try:
